@@ -693,8 +693,8 @@ contract(F + "Continuum.__eq__",
          loops={"L0": dict(match="for (my_annotator, my_unit), (other_annotator, other_unit) in zip(self, other)", index="kz",
                            seq_name=["YS", "YO"],
                            inv=["forall(k, 0, kz, YS[k][0] == YO[k][0] and YS[k][1] == YO[k][1])"])},
-         hooks=[("before", "if self.annotators != other.annotators: ...", "model_inv wfmap(self)"),
-                ("before", "if self.annotators != other.annotators: ...", "model_inv wfmap(other)"),
+         hooks=[("before", "@entry", "model_inv wfmap(self)"),
+                ("before", "@entry", "model_inv wfmap(other)"),
                 # every unit sits at its flat position in the iteration, on both sides
                 ("before", "return True", "assert forall([(a, Real), (u, Unit)], implies(Us(self)[a][u], 0 <= flat(self, a, u) and "
                                           "flat(self, a, u) < NumUnits(self) and YS[flat(self, a, u)][0] == a and YS[flat(self, a, u)][1] == u))"),
